@@ -45,7 +45,10 @@ func (t *Tag) AttrMap() map[string]*Attr {
 // 各指令属性中再按 if, range, remove 顺序
 // 其他属性按出现先后不变
 func (t *Tag) SortedAttr(prefix string) []*Attr {
-	if t.sorted != len(t.Attrs) {
+	// 在副本上排序: 解析后的 Tag 会被并发执行的模板共享, 不能在执行期间修改 t.Attrs
+	attrs := make([]*Attr, len(t.Attrs))
+	copy(attrs, t.Attrs)
+	{
 		weight := map[string]int{
 			attrWith:    -4,
 			attrIf:      -3,
@@ -56,8 +59,8 @@ func (t *Tag) SortedAttr(prefix string) []*Attr {
 			attrRange:   -2,
 			attrRemove:  -1,
 		}
-		sort.SliceStable(t.Attrs, func(i, j int) bool {
-			x, y := t.Attrs[i].Name, t.Attrs[j].Name
+		sort.SliceStable(attrs, func(i, j int) bool {
+			x, y := attrs[i].Name, attrs[j].Name
 			xw, yw := 1, 1
 			if strings.HasPrefix(x, prefix) {
 				x = strings.TrimPrefix(x, prefix)
@@ -75,9 +78,8 @@ func (t *Tag) SortedAttr(prefix string) []*Attr {
 			}
 			return weight[x] < weight[y]
 		})
-		t.sorted = len(t.Attrs)
 	}
-	return t.Attrs
+	return attrs
 }
 
 // IsClose 是否是闭合标签
